@@ -4,7 +4,10 @@ trailing-slash test, the empty-path rule).  Usage:
     python3 notes/c01c02-path-mutations.py [names…]
     git -C /repo worktree remove --force /tmp/c01path-ural
 Each mutant must keep the 96 tests of /repo passing and be reported as VIOLATION by the check
-named in its entry."""
+named in its entry (R* are behaviour-preserving refactorings predicted by theorems: the check
+must stay green).  Rejected while building the list because the 96 tests catch them: no slash
+squeeze, final '..' not resolved, empty-path rule ignoring the fragment / the empty string;
+'..' popping the root only changes the SplitResult (urlunsplit restores the slash)."""
 import subprocess, sys, os
 U = "/tmp/c01path-ural"
 W = os.path.dirname(os.path.dirname(os.path.abspath(__file__)))
@@ -13,9 +16,6 @@ CU = "ural/canonicalize_url.py"
 MUTS = {
  "M1-dotdot-needs-two-segments": ("C01", [(UT, '''            if resolved[1:]:
                 resolved.pop()''', '''            if resolved[2:]:
-                resolved.pop()''')]),
- "M1b-dotdot-pops-root": ("C01", [(UT, '''            if resolved[1:]:
-                resolved.pop()''', '''            if resolved:
                 resolved.pop()''')]),
  "M2-trailing-test-forgets-dotdot": ("C01", [(CU, '''trailing_slash = path.endswith(("/", "/.", "/.."))''', '''trailing_slash = path.endswith(("/", "/."))''')]),
  "M3-trailing-test-before-unescaping": ("C01", [(CU, '''    path = safely_unquote_path(path)
@@ -28,24 +28,18 @@ MUTS = {
 ''', '''    elif trailing_slash and "." in path:
         path += "/"
 ''')]),
- "M5-no-slash-squeeze": ("C02", [(UT, '''def normpath(urlpath, drop_consecutive_slashes=True):''', '''def normpath(urlpath, drop_consecutive_slashes=False):''')]),
  "M6-final-dot-kept": ("C02", [(UT, '''        elif segment not in ("./", "."):''', '''        elif segment != "./":''')]),
- "M7-final-dotdot-not-resolved": ("C02", [(UT, '''        if segment in ("../", ".."):''', '''        if segment == "../":''')]),
  "M8-dots-resolved-before-unescaping": ("C01", [(CU, '''    path = safely_unquote_path(path)
     trailing_slash = path.endswith(("/", "/.", "/.."))
     path = normpath(path)
 ''', '''    trailing_slash = safely_unquote_path(path).endswith(("/", "/.", "/.."))
     path = safely_unquote_path(normpath(path))
 ''')]),
- "M9-empty-path-rule-keeps-slash-only-with-query": ("C02", [(CU, '''        if not query and not fragment:
-            path = ""''', '''        if not query:
-            path = ""''')]),
  "M10-dotdot-at-root-kept": ("C02", [(UT, '''            if resolved[1:]:
                 resolved.pop()''', '''            if resolved[1:]:
                 resolved.pop()
             else:
                 resolved.append(segment)''')]),
- "M11-empty-path-rule-misses-empty-string": ("C02", [(CU, '''    if not path or path == "/":''', '''    if path == "/":''')]),
  # behaviour-preserving (predicted by path_second_unquote_noop): the check must stay green
  "R1-second-unquote-removed": ("C02", [(CU, '''    else:
         path = safely_unquote_path(path)
